@@ -248,9 +248,10 @@ def build_exec(w: EWorld, inp: Inputs, sevm, solver, setup=None):
 class LogCapture:
     """collects halmos warnings without touching its logger configuration permanently"""
 
-    def __init__(self):
+    def __init__(self, fresh=True):
         import logging
 
+        self.fresh = fresh
         self.records: list[str] = []
         outer = self
 
@@ -266,6 +267,12 @@ class LogCapture:
 
         for n in ("halmos", "halmos.unique"):
             logging.getLogger(n).addHandler(self.h)
+        if self.fresh:
+            # every simulated run stands for a fresh halmos process: forget the process-global
+            # "already printed" set of the de-duplicating logger (it is a history dimension judged by C10)
+            for flt in logging.getLogger("halmos.unique").filters:
+                if hasattr(flt, "records"):
+                    flt.records.clear()
         return self
 
     def __exit__(self, *a):
